@@ -247,11 +247,12 @@ def isBaseDigit (base : Nat) (c : Char) : Bool :=
 
 /-- `number()` -/
 def number (ts : Terms) : P Expr := do
+  skipWs
+  let start ← getPos
   let negative ← maybe (lit "-")
   let sign : Int := if negative.isSome then -1 else 1
   let signStr := if negative.isSome then "-" else ""
   skipWs
-  let start ← getPos
   -- Macro-11 style prefixes
   let prefixes : List (String × Nat) := [("^X", 16), ("^O", 8), ("^B", 2), ("^D", 10)]
   let rec tryPrefixes : List (String × Nat) → P (Option Expr)
